@@ -656,3 +656,41 @@ def gen_hset(rng, n, tag='w'):
 GEN['hset'] = gen_hset
 QUICK['hset'] = 200
 THOROUGH['hset'] = 5000
+
+# ------------------------------------------------------------------ exhaustive small histories (thorough tier)
+def gen_qf_exhaustive():
+    """every insertion sequence up to a length over the complete class universe of tiny widths, with a scripted
+    hasher that sends key x to fingerprint x (so keys = classes): (1,1) up to length 6, (2,1) up to 5, (1,2) up to 5;
+    the whole universe is observed after every insert"""
+    import itertools
+    out = []
+    for (bq, br, maxlen) in [(1, 1, 6), (2, 1, 5), (1, 2, 5)]:
+        u = 1 << (bq + br)
+        hset = ['HSET - %d %d' % (x, x) for x in range(u)]
+        for ln in range(1, maxlen + 1):
+            for seq in itertools.product(range(u), repeat=ln):
+                if ln < maxlen and ln > 2:
+                    continue        # prefixes are observed inside the longer sequences anyway
+                L = list(hset) + ['new 0 %d %d' % (bq, br)]
+                for x in seq:
+                    L += ['ins 0 %d' % x, 'obs 0']
+                out.append(case('xq%d%d_%s' % (bq, br, ''.join(map(str, seq))), 'qf', {'hasher': 'script:1', 'u': u, 'freshpass': 0}, L))
+    return out
+
+def gen_cuckoo_exhaustive():
+    """every insert/delete sequence of length 5 over 4 keys on a 2-bucket x 2-slot table with 2-bit fingerprints and a
+    scripted hasher that forces collisions (two keys share a class, all keys share the bucket pair)"""
+    import itertools
+    out = []
+    # H(0, x) -> fingerprint = 1 + h mod 3 ; H(1, y) -> bucket = h & 1
+    fp = {0: 0, 1: 0, 2: 1, 3: 2}        # keys 0 and 1 are indistinguishable
+    bucket = {0: 0, 1: 0, 2: 1, 3: 0}
+    hset = ['HSET 0 %d %d' % (x, fp[x]) for x in range(4)] + ['HSET 1 %d %d' % (x, bucket[x]) for x in range(4)]
+    ops = [('ins', x) for x in range(4)] + [('del', x) for x in range(4)]
+    for seq in itertools.product(ops, repeat=5):
+        L = list(hset) + ['new 0 2 2 2']
+        for o, x in seq:
+            L += ['%s 0 %d' % (o, x), 'dobs 0']
+        out.append(case('xk' + ''.join('%s%d' % (o[0], x) for o, x in seq), 'cuckoo', {'hasher': 'script:1', 'u': 4, 'rngseed': 7, 'freshpass': 0}, L))
+    return out
+EXHAUSTIVE = {'qf': gen_qf_exhaustive, 'cuckoo': gen_cuckoo_exhaustive}
